@@ -305,7 +305,10 @@ func (c *Corpus) Run(reqs []Req, o RunOpts) ([]Res, error) {
 		o.Workers = 12
 	}
 	if o.CPUSeconds <= 0 {
-		o.CPUSeconds = 120
+		// per child process, i.e. for its whole share of the requests: generous and growing with the request count
+		// (exceeding it on one request list is reported as non-termination, so it must be far from what correct
+		// parsers need on a loaded machine)
+		o.CPUSeconds = 300 + len(reqs)/50
 	}
 	if o.WallSeconds <= 0 {
 		o.WallSeconds = 1200
